@@ -8,7 +8,7 @@ open Catch Py.Gen
 
     kind  fn | with | awith | gen | coro | agen
     cfgs  `;`-joined, innermost first;  cfg = M:X:R:L:D:O   (M, X bit strings indexed by class,
-          R 0/1, L level no, D default, O = n | k | r<cls>.<id> | q<call>!<call>…[$<cls>.<id>] with
+          R 0/1, L level no, D default, O = [F](n | k | r<cls>.<id> | q<call>!<call>…[$<cls>.<id>]) (F: the callable is falsy) with
           call = (f|w)=M^X^R^L^D^O'=(r<v> | e<cls>.<id>): catch()-protected calls made by the callback)
     env   <probes>@<bits>:<cls>.<id>@<minlevel>    probes = `-` or `,`-joined  cfg~(r<v> | e<cls>.<id>);
           minlevel = least level a handler accepts (no handler: 1000000)
@@ -44,10 +44,12 @@ def parseSimpleOnerror (o : String) : Option (Option OnErr) :=
 def parseCfgWith (sep : String) (onerr : String → Option (Option OnErr)) (s : String) : Option Cfg :=
   match s.splitOn sep with
   | [m, x, r, l, d, o] =>
+    let falsy := o.startsWith "F"          -- the callable's truth value is False
+    let o := if falsy then (o.drop 1).toString else o
     match l.toNat?, d.toNat?, onerr o with
     | some l, some d, some oe =>
       some { isMatch := fun e => bit m e.cls, excluded := fun e => bit x e.cls, reraise := r == "1",
-             level := l, default := d, onerror := oe }
+             level := l, default := d, onerror := oe, onerrorFalsy := falsy }
     | _, _, _ => none
   | _ => none
 
